@@ -1029,3 +1029,132 @@ Lemma ingress_example_ok :
   map fst (w_ids (es_w (is_e st))) =
     [(0%N, (0, 0, 0, 0, 1, 65001, 1)%N); (4%N, (0, 0, 0, 0, 1, 65001, 1)%N); (8%N, (0, 0, 0, 0, 1, 65001, 1)%N)].
 Proof. vm_compute. repeat split; reflexivity. Qed.
+
+(* ---- the same with the standard library's list membership and the readings of E2eModel (for statements that do not
+   use std++ notation) ---- *)
+
+Theorem removed_unit_withdraws_its_routes_std st k rid s id key :
+  is_run st = true -> is_want st = false ->
+  (k < 4)%N -> i_session st (k + 8 * is_gen st)%N = Some (rid, s) -> In id (i_children st rid) ->
+  k_mui key = id -> (k_fam key < 4)%N ->
+  i_rib_lookup (i_step false st (IE EReload)) key = withdrawn_of (i_rib_lookup st key).
+Proof.
+  intros Hr Hw Hk Hs Hid Hm Hf. unfold i_rib_lookup, withdrawn_of.
+  rewrite (removed_unit_withdraws_its_routes st k rid s id key Hr Hw Hk Hs); try assumption.
+  - destruct (rib_lookup _ key) as [[? ?]|]; reflexivity.
+  - apply elem_of_list_In. exact Hid.
+Qed.
+
+Theorem removal_spares_other_ingresses_std st :
+  is_run st = true -> is_want st = false ->
+  let st' := i_step false st (IE EReload) in
+  (forall key,
+     (forall k rid s, (k < 4)%N -> i_session st (k + 8 * is_gen st)%N = Some (rid, s) -> ~ In (k_mui key) (i_children st rid)) ->
+     i_rib_lookup st' key = i_rib_lookup st key) /\
+  (forall k, (4 <= k < 8)%N -> i_session st' k = i_session st k) /\
+  (forall rid, i_children st' rid = i_children st rid).
+Proof.
+  intros Hr Hw. cbn zeta. destruct (removal_spares_other_ingresses st Hr Hw) as (H1 & H2 & H3). cbn zeta in H1, H2.
+  split; [|split].
+  - intros key Hno. apply H1. intros k rid s Hk Hs Hin. apply (Hno k rid s Hk Hs). apply elem_of_list_In. exact Hin.
+  - intros k [Hlo Hhi]. apply H2; [|exact Hhi]. unfold on_unit1. apply N.ltb_ge. exact Hlo.
+  - intros rid. unfold i_children. rewrite H3. reflexivity.
+Qed.
+
+Theorem removal_ends_its_sessions_std st :
+  is_run st = true -> is_want st = false ->
+  let st' := i_step false st (IE EReload) in
+  is_run st' = false /\ i_listed st' 0 = None /\ forall k, (k < 4)%N -> i_session st' (k + 8 * is_gen st)%N = None.
+Proof.
+  intros Hr Hw. cbn zeta.
+  destruct (removal_is_the_withdrawal_of_its_sessions st Hr Hw) as (H1 & _ & _ & _ & _ & H6). cbn zeta in H6.
+  split; [exact H1|]. split; [apply router_list_goes_with_the_unit, H1|].
+  intros k Hk. unfold i_session. rewrite H6. rewrite bool_decide_true; [reflexivity|].
+  apply elem_of_unit1_keys. exists k. split; [exact Hk|reflexivity].
+Qed.
+
+Theorem added_unit_is_a_new_parent_std lg st :
+  is_run st = false -> is_want st = true ->
+  let st' := i_step lg st (IE EReload) in
+  is_run st' = true /\ is_gen st' = (is_gen st + 1)%N /\
+  is_uid st' = serial (w_reg (es_w (is_e st))) /\
+  (forall key, i_rib_lookup st' key = i_rib_lookup st key) /\
+  (forall key, i_session st' key = i_session st key) /\
+  (forall rid, i_children st' rid = i_children st rid).
+Proof.
+  intros Hr Hw. cbn zeta. destruct (added_unit_is_a_new_parent lg st Hr Hw) as (H1 & H2 & H3 & H4 & H5 & H6). cbn zeta in *.
+  split; [exact H1|]. split; [exact H2|]. split; [exact H3|]. split; [|split].
+  - intros key. unfold i_rib_lookup. rewrite H4. reflexivity.
+  - intros key. unfold i_session. rewrite H5. reflexivity.
+  - intros rid. unfold i_children, reg_ids_for_parent. rewrite H6. reflexivity.
+Qed.
+
+Theorem no_unit_no_sessions_std s0 n0 h k g :
+  let st := i_run false (i_init s0 n0) h in
+  (k < 4)%N ->
+  (is_run st = false -> i_session st (k + 8 * g)%N = None) /\
+  (i_session st (k + 8 * g)%N <> None -> is_run st = true /\ g = is_gen st).
+Proof.
+  cbn zeta. intros Hk.
+  assert (Hu : unit1_key (k + 8 * g) = true).
+  { apply (unit1_keys_unit1 g). apply elem_of_unit1_keys. exists k. split; [exact Hk|reflexivity]. }
+  pose proof (i_run_sessions_ok h _ (i_init_sessions_ok s0 n0)) as Inv. unfold i_session. split.
+  - intros Hr. destruct (w_routers _ !! _) as [x|] eqn:E; [|reflexivity].
+    destruct (Inv _ (ex_intro _ x E) Hu) as [Hr' _]. congruence.
+  - intros Hs. destruct (w_routers _ !! _) as [x|] eqn:E; [|congruence].
+    destruct (Inv _ (ex_intro _ x E) Hu) as [Hr' Hin]. split; [exact Hr'|].
+    apply elem_of_unit1_keys in Hin as (k' & Hk' & Heq). nia.
+Qed.
+
+Lemma wdn'_withdrawn_of o : wdn' o = withdrawn_of o.
+Proof. destruct o as [[? ?]|]; reflexivity. Qed.
+
+Theorem removal_in_the_property_reading_std st :
+  is_run st = true -> is_want st = false ->
+  let st' := i_step false st (IE EReload) in
+  forall f p (x : wid),
+    i_spec_lookup st' f p x =
+    if (existsb (N.eqb (fst x)) (map (fun k => k + 8 * is_gen st)%N [0; 1; 2; 3]%N)) && i_spec_session st (fst x)
+    then withdrawn_of (i_spec_lookup st f p x) else i_spec_lookup st f p x.
+Proof.
+  intros Hr Hw. cbn zeta. intros f p x.
+  pose proof (removal_in_the_property_reading st Hr Hw) as H. cbn zeta in H. specialize (H f p x).
+  unfold i_spec_lookup, i_spec_session. etransitivity; [exact H|]. clear H.
+  assert (E1 : bool_decide (x.1 ∈ unit1_keys (is_gen st)) = existsb (N.eqb (fst x)) (map (fun k => k + 8 * is_gen st)%N [0; 1; 2; 3]%N)).
+  { apply bool_ext_iff. rewrite bool_decide_eq_true, existsb_exists. rewrite elem_of_unit1_keys. split.
+    - intros (k & Hk & ->). exists (k + 8 * is_gen st)%N. split; [|apply N.eqb_refl].
+      apply in_map_iff. exists k. split; [reflexivity|]. cbn. lia.
+    - intros (y & Hy & He). apply N.eqb_eq in He. subst y. apply in_map_iff in Hy as (k & <- & Hk).
+      exists k. split; [cbn in Hk; lia|reflexivity]. }
+  assert (E2 : bool_decide (is_Some (s_sess (es_s (is_e st)) !! x.1)) = match s_sess (es_s (is_e st)) !! x.1 with Some _ => true | None => false end).
+  { destruct (s_sess _ !! x.1); [apply bool_decide_true; eauto|apply bool_decide_false; intros [? ?]; discriminate]. }
+  rewrite E1, E2.
+  destruct (_ && _); [apply wdn'_withdrawn_of|reflexivity].
+Qed.
+
+(* the removal, as every RIB unit that lives through the reload takes it: ONE WithdrawBulk of the ingress ids registered
+   under the routers that were connected to bmp-in (what the clean-up of each of their connections sends, together) *)
+Theorem removal_is_one_bulk_withdrawal_std st :
+  is_run st = true -> is_want st = false ->
+  let st' := i_step false st (IE EReload) in
+  let ids := removed_ids (es_w (is_e st)) (map (src_key (is_gen st)) unit1_addrs) in
+  ru_rib (es_rib (is_e st')) = rib_apply (ru_rib (es_rib (is_e st))) (UWithdrawBulk ids) /\
+  ru_filter (es_rib (is_e st')) = ru_filter (es_rib (is_e st)) /\
+  forall r, es_rib2 (is_e st) = Some r -> es_rib2kind (is_e st) = 1%N -> ef_rib2 (es_file (is_e st)) = 1%N ->
+    es_rib2 (is_e st') = Some (MkRunit (ru_filter r) (ru_born r) (rib_apply (ru_rib r) (UWithdrawBulk ids))).
+Proof.
+  intros Hr Hw. cbn zeta.
+  destruct (removal_is_the_withdrawal_of_its_sessions st Hr Hw) as (_ & H2 & H3 & _). cbn zeta in H3.
+  split; [exact H3|]. split; [exact H2|].
+  intros r H Hk Hf. apply (removal_reaches_second_rib st r Hr Hw H Hk Hf).
+Qed.
+
+Theorem legacy_removal_leaves_routes_refuted_std :
+  let stl := i_run true (i_init SNone 0) removal_witness in
+  let stf := i_run false (i_init SNone 0) removal_witness in
+  (exists id, rib_query (ru_rib (es_rib (is_e stl))) 0 1 = [(id, true, 3%N)]) /\
+  (exists id, rib_query (ru_rib (es_rib (is_e stf))) 0 1 = [(id, false, 3%N)]) /\
+  ideal_query (s_rib (es_s (is_e stl))) 0 1 = [((0%N, (0, 0, 0, 0, 1, 65001, 1)%N), false, 3%N)] /\
+  ideal_query (s_rib (es_s (is_e stf))) 0 1 = [((0%N, (0, 0, 0, 0, 1, 65001, 1)%N), false, 3%N)] /\
+  is_run stl = false /\ i_session stl 0%N = None.
+Proof. exact legacy_removal_leaves_routes_refuted. Qed.
